@@ -247,7 +247,9 @@ namespace Givaro {
     Montgomery<int32_t>::init (Element& r, const int64_t a) const
     {
 
-        r = static_cast<Element>(std::abs(a) % int64_t(_p));
+        // magnitude in the unsigned type: std::abs(a) overflows for INT64_MIN
+        const uint64_t ua = (a < 0) ? uint64_t(0) - static_cast<uint64_t>(a) : static_cast<uint64_t>(a);
+        r = static_cast<Element>(ua % uint64_t(_p));
         if (a < 0) negin(r);
         return redc(r, r * _B2p);
     }
